@@ -362,7 +362,6 @@ class ATP_Store:
             if conversion > 0:
                 self.nadh -= conversion
                 self.atp += conversion
-                balance = self.atp
                 if not self.silent:
                     print(f"🔄 [Metabolism] Oxidative phosphorylation: {conversion} NADH → ATP")
             return conversion
